@@ -37,6 +37,11 @@ pub enum Op {
     Revive(usize, usize),
     AddMember(usize, usize),
     RemMember(usize, usize),
+    /// the group slot becomes a POSIX group (class + generated gid) / stops being one (class and
+    /// gid removed) / gets another class added, on replica r
+    PosixOn(usize),
+    PosixOff(usize),
+    TouchClass(usize),
     /// incremental replication from -> to
     Repl(usize, usize),
     /// refresh from -> to
@@ -49,6 +54,8 @@ pub enum Op {
 
 #[derive(Clone, Debug, Default)]
 pub struct Cfg {
+    /// class edits of the group slot (C15: schema conformance after merges)
+    pub class_edits: bool,
     pub replicas: usize,
     pub slots: Vec<usize>,
     pub names: usize,
@@ -453,6 +460,7 @@ impl Repl {
         let want_c19 = self.cfg.props.contains("C19");
         let want_c09 = self.cfg.props.contains("C09");
         let want_c08 = self.cfg.props.contains("C08");
+        let want_c15 = self.cfg.props.contains("C15");
 
         for (oi, order) in orders.iter().enumerate() {
             let this: &mut Repl = self;
@@ -509,6 +517,20 @@ impl Repl {
                             for r in 0..n {
                                 if this.life(r, s) == Life::Live {
                                     msgs.push(format!("resurrected\u{2}slot {s} was deleted but is live on replica {r} after quiescence"));
+                                }
+                            }
+                        }
+                    }
+                }
+                if want_c15 {
+                    for r in 0..n {
+                        for s in 0..NSLOTS {
+                            if this.life(r, s) == Life::Live {
+                                if let Some(e) = this.slot_entry(r, s) {
+                                    let found: Vec<(String, String)> = this.srvs[r].read(|t| crate::worlds::schemaw::SchemaW::check_entry(t.get_schema(), &e));
+                                    for (k, w) in found {
+                                        msgs.push(format!("schema_invalid_after_merge:{k}\u{2}replica {r} after quiescence: {w}"));
+                                    }
                                 }
                             }
                         }
@@ -732,6 +754,9 @@ impl Repl {
             }
             Op::AddMember(r, s) => self.srvs[*r].write(ct, |w| w.internal_modify_uuid(slot_uuid(2), &ModifyList::new_list(vec![Modify::Present(Attribute::Member, Value::Refer(slot_uuid(*s)))]))),
             Op::RemMember(r, s) => self.srvs[*r].write(ct, |w| w.internal_modify_uuid(slot_uuid(2), &ModifyList::new_list(vec![Modify::Removed(Attribute::Member, PartialValue::Refer(slot_uuid(*s)))]))),
+            Op::PosixOn(r) => self.srvs[*r].write(ct, |w| w.internal_modify_uuid(slot_uuid(2), &ModifyList::new_list(vec![Modify::Present(Attribute::Class, EntryClass::PosixGroup.to_value())]))),
+            Op::PosixOff(r) => self.srvs[*r].write(ct, |w| w.internal_modify_uuid(slot_uuid(2), &ModifyList::new_list(vec![Modify::Removed(Attribute::Class, EntryClass::PosixGroup.into()), Modify::Purged(Attribute::GidNumber)]))),
+            Op::TouchClass(r) => self.srvs[*r].write(ct, |w| w.internal_modify_uuid(slot_uuid(2), &ModifyList::new_list(vec![Modify::Present(Attribute::Class, EntryClass::ExtensibleObject.to_value())]))),
             _ => Ok(()),
         };
         opstr(&r)
@@ -785,6 +810,11 @@ impl World for Repl {
                             v.push(Op::SetMail(r, s));
                             v.push(Op::PurgeMail(r, s));
                         }
+                        if self.cfg.class_edits && s == 2 {
+                            let posix = self.slot_entry(r, 2).map(|g| g.attribute_equality(Attribute::Class, &EntryClass::PosixGroup.into())).unwrap_or(false);
+                            v.push(if posix { Op::PosixOff(r) } else { Op::PosixOn(r) });
+                            v.push(Op::TouchClass(r));
+                        }
                         if self.cfg.lifecycle {
                             v.push(Op::Delete(r, s));
                         }
@@ -826,7 +856,7 @@ impl World for Repl {
     fn apply(&mut self, op: &Op) -> String {
         let l = self.apply_inner(op);
         match op {
-            Op::Create(r, ..) | Op::Rename(r, ..) | Op::SetDisp(r, ..) | Op::SetMail(r, ..) | Op::PurgeMail(r, ..) | Op::Delete(r, ..) | Op::Revive(r, ..) | Op::AddMember(r, ..) | Op::RemMember(r, ..) => self.last_writer = Some(*r),
+            Op::Create(r, ..) | Op::Rename(r, ..) | Op::SetDisp(r, ..) | Op::SetMail(r, ..) | Op::PurgeMail(r, ..) | Op::Delete(r, ..) | Op::Revive(r, ..) | Op::AddMember(r, ..) | Op::RemMember(r, ..) | Op::PosixOn(r) | Op::PosixOff(r) | Op::TouchClass(r) => self.last_writer = Some(*r),
             _ => {}
         }
         if let (Op::Revive(_, s), "ok") = (op, l.as_str()) {
@@ -842,6 +872,21 @@ impl World for Repl {
         let mut out = Vec::new();
         for t in std::mem::take(&mut self.resurrections) {
             out.push(("resurrected".to_string(), t));
+        }
+        // C15: after every step, each live entry of each replica conforms to the schema in force
+        if self.cfg.props.contains("C15") {
+            for r in 0..self.cfg.replicas {
+                for s in 0..NSLOTS {
+                    if self.life(r, s) == Life::Live {
+                        if let Some(e) = self.slot_entry(r, s) {
+                            let found: Vec<(String, String)> = self.srvs[r].read(|t| crate::worlds::schemaw::SchemaW::check_entry(t.get_schema(), &e));
+                            for (k, w) in found {
+                                out.push((format!("schema_invalid_after_merge:{k}"), format!("replica {r}: {w}")));
+                            }
+                        }
+                    }
+                }
+            }
         }
         // C09: a replica that has been out of contact for longer than the changelog window, talking
         // to a supplier that has trimmed since, must not be supplied incrementally
